@@ -12,13 +12,13 @@ import vlib
 
 POOLS = {
     # size -> constant -> definition in SqlGrammarMC.tla
-    "S": dict(TrickyStrs="MC_TrickyStrs_S", QuotedIdents="MC_QuotedIdents_S", Aliases="MC_Aliases_S", Dbs="MC_Dbs_S", IntLits="MC_IntLits", StrLits="MC_StrLits", LimVals="MC_LimVals_S",
+    "S": dict(UniStrs="MC_UniStrs_S", UniIdents="MC_UniIdents_S", TrickyStrs="MC_TrickyStrs_S", QuotedIdents="MC_QuotedIdents", Aliases="MC_Aliases_S", Dbs="MC_Dbs_S", IntLits="MC_IntLits", StrLits="MC_StrLits", LimVals="MC_LimVals_S",
               LeafSet="MC_LeafSet_S", LeafPool="MC_LeafPool_S", ItemPool="MC_ItemPool_S", CondPool="MC_CondPool_S",
               ColPool="MC_ColPool_S", LitPool="MC_LitPool", JoinTblPool="MC_JoinTblPool_S"),
-    "Q": dict(TrickyStrs="MC_TrickyStrs", QuotedIdents="MC_QuotedIdents", Aliases="MC_Aliases", Dbs="MC_Dbs", IntLits="MC_IntLits", StrLits="MC_StrLits", LimVals="MC_LimVals",
+    "Q": dict(UniStrs="MC_UniStrs", UniIdents="MC_UniIdents", TrickyStrs="MC_TrickyStrs", QuotedIdents="MC_QuotedIdents", Aliases="MC_Aliases", Dbs="MC_Dbs", IntLits="MC_IntLits", StrLits="MC_StrLits", LimVals="MC_LimVals",
               LeafSet="MC_LeafSet_Q", LeafPool="MC_LeafPool_Q", ItemPool="MC_ItemPool_Q", CondPool="MC_CondPool_Q",
               ColPool="MC_ColPool_Q", LitPool="MC_LitPool", JoinTblPool="MC_JoinTblPool"),
-    "T": dict(TrickyStrs="MC_TrickyStrs", QuotedIdents="MC_QuotedIdents", Aliases="MC_Aliases", Dbs="MC_Dbs", IntLits="MC_IntLits_T", StrLits="MC_StrLits_T", LimVals="MC_LimVals",
+    "T": dict(UniStrs="MC_UniStrs", UniIdents="MC_UniIdents", TrickyStrs="MC_TrickyStrs", QuotedIdents="MC_QuotedIdents", Aliases="MC_Aliases", Dbs="MC_Dbs", IntLits="MC_IntLits_T", StrLits="MC_StrLits_T", LimVals="MC_LimVals",
               LeafSet="MC_LeafSet_T", LeafPool="MC_LeafPool_T", ItemPool="MC_ItemPool_T", CondPool="MC_CondPool_T",
               ColPool="MC_ColPool_T", LitPool="MC_LitPool_T", JoinTblPool="MC_JoinTblPool"),
 }
@@ -33,7 +33,7 @@ SLICE_NAMES = ["sel_item_expr", "sel_item_leaf", "sel_item_tree", "sel_items", "
                "sel_where_leaf", "sel_where_tree", "sel_group_count", "sel_group_cols", "sel_group_alias", "sel_order", "sel_limit",
                "sel_combo", "ins_cols", "ins_row", "ins_rows", "upd_one", "upd_list", "upd_where_leaf", "upd_where_tree", "del_all",
                "del_leaf", "del_tree", "create_table", "create_database", "use", "show", "given",
-               "str_insert", "str_update", "str_cond", "str_item", "qid"]
+               "str_insert", "str_update", "str_cond", "str_item", "qid", "uni"]
 
 
 def cfg(size, slices, stmts="MC_None", vocab="MC_None", vocab2="MC_None", max_junk=0, max_tail=99, at_end=False,
@@ -67,7 +67,29 @@ def cfg(size, slices, stmts="MC_None", vocab="MC_None", vocab2="MC_None", max_ju
 _END = object()
 
 
-def stream_tlc(ctx, pool, tag, cfg_text, make_request, on_result, timeout=1500, workers=None, heap=None, chunk=64):
+_UESC = re.compile(r"<U\+([0-9A-Fa-f]{4,6})>")
+
+
+def unescape(o):
+    """SqlGrammar writes a character outside ASCII as <U+hhhh>; put the character in its place (strings in
+    tokens and in the expected statement alike)."""
+    if isinstance(o, str):
+        return _UESC.sub(lambda m: chr(int(m.group(1), 16)), o) if "<U+" in o else o
+    if isinstance(o, list):
+        return [unescape(x) for x in o]
+    if isinstance(o, dict):
+        return {k: unescape(v) for k, v in o.items()}
+    return o
+
+
+def has_escape(toks):
+    for t in toks:
+        if "<U+" in t[1]:
+            return True
+    return False
+
+
+def stream_tlc(ctx, pool, tag, cfg_text, make_request, on_result, timeout=1500, workers=None, heap=None, chunk=64, stop=None):
     """Run TLC on SqlGrammarMC with cfg_text; every SCN line becomes a harness request
     (make_request(obj) -> dict or None) that is executed while TLC is still running.
     Returns the TlcResult; raises Undecided if TLC did not complete."""
@@ -94,6 +116,8 @@ def stream_tlc(ctx, pool, tag, cfg_text, make_request, on_result, timeout=1500, 
             if o is _END:
                 return
             count["scn"] += 1
+            if stop is not None and stop():
+                return          # enough seen (hangs): the rest of TLC's output is drained unread
             r = make_request(o)
             if r is not None:
                 yield r
